@@ -96,6 +96,29 @@ TEXT.update({
                     'systemd_arg_escape / build_exclude_text / build_service_text is assumed and exercised, not proved. The enumeration part is reported as enumerative (exhaustive for single characters), never as discharged obligations.')),
 })
 
+TEXT.update({
+    'C02': dict(
+        technique='deductive verification (Verus): inclusion invariant J + origin invariant of Mapper::step on the real code, lifted to histories by the verified universal client',
+        level_text=('Proof, unbounded, of clauses (a), (c), (d): (a) at every prefix of every history every key held on the virtual keyboard is physically held or is an output key of a layout mapping all of whose trigger '
+                    'keys are physically held (J1-J3, "every mapping in effect is a mapping of the layout" through the grouped-layout postcondition of make_hashed_layout, pressed is a subset of physically held); (c) a step for a '
+                    'release emits only releases; (d) a held key that is a trigger key of a mapping in effect is an output key of a mapping in effect (J4, needs the D6 repair). Clause (b) is not covered by a contract yet.'),
+        design_ref='6.2', level_note=MAPPER_NOTE + ' Clause (b) of the statement is outside the claim (the witness oracle still tests it).'),
+    'C03': dict(
+        technique='deductive verification (Verus): firing specification of newly_press / add_new_mapping against a layout-level spec function, on the real code, lifted by the universal client',
+        level_text=('Proof, unbounded, from every reachable state: the mapping that takes effect on a new key press is layout_fired(layout, pressed, absorbed, k) - by definition the last-listed mapping whose final trigger '
+                    'key is k and whose other trigger keys are all held (and not absorbed) - proved through make_hashed_layout ensures grouped (order kept, nothing lost), is_supported ensures the support spec, the reverse '
+                    'scan invariant of newly_press; add_new_mapping ensures every non-modifier output key is pressed by an event of the step, every modifier output is held, with Normal repeat the whole output is held; '
+                    'if nothing qualifies the key is the last event of the step and held, unless a mapping in effect mentions it (then no event). The universal client states it for layouts without absorbing mappings.'),
+        design_ref='6.3', level_note=MAPPER_NOTE),
+    'C06': dict(
+        technique='deductive verification (Verus): reset clause only (invariant + postcondition of release_all on the real code); the two-run equivalence clause is not decidable by single-run contracts',
+        level_text=('Proof of the reset clause only: whenever nothing is considered pressed nothing is held on the virtual keyboard (lemma_rest through the invariant), after all physical keys are released nothing is '
+                    'considered pressed (C01), and release_all ensures nothing pressed, nothing held, only releases emitted. The clause "answers every later event sequence exactly like a new mapper" relates two runs; '
+                    'stale values of the absorbed list / absorbing trigger / repeating trigger survive at rest, and showing that they never influence a later answer needs a relational (two-run) proof that the installed '
+                    'tools cannot express. It is named as unproved in the evidence.'),
+        design_ref='6.6', level_note=MAPPER_NOTE),
+})
+
 NOT_APPLICABLE = {
     'C15': 'both sides are serde / serde_json (derive(Serialize), serde_json::Value, enum_utils FromStr): no contract within reach of Verus or Kani can express or decide it without assuming the behaviour of the libraries, i.e. the property (DESIGN 6.15)',
     'C16': 'keyboard_listing.rs is str splitting/searching iterators, /proc and /sys I/O and an external glob crate; Verus does not reason about str contents and Kani does not terminate on symbolic text (DESIGN 6.16)',
